@@ -222,7 +222,11 @@ func (fs *FS) point(k OpKind, path string, off int64, n int, ldb bool) (Decision
 	binary.LittleEndian.PutUint64(hdr[2:], uint64(off))
 	binary.LittleEndian.PutUint64(hdr[10:], uint64(n))
 	fs.trace.Write(hdr[:])
-	fs.trace.Write([]byte(path))
+	if k != OpClose {
+		// the system under test closes its cached read handles in Go map
+		// order: which file a close belongs to is not part of the digest
+		fs.trace.Write([]byte(path))
+	}
 	fs.trace.Write([]byte{0})
 	if fs.keep {
 		fs.points = append(fs.points, p)
